@@ -316,7 +316,7 @@ func formatRunes(runes []rune) string {
 	var b bytes.Buffer
 
 	for _, r := range runes {
-		fmt.Fprintf(&b, "'%c', ", r)
+		fmt.Fprintf(&b, "%q, ", r)
 	}
 
 	if len(runes) > 0 {
